@@ -534,8 +534,31 @@ def save_score_midi(
 
     for tr, events_by_time in events.items():
         t_prev = 0
+        # number of notes sounding before the current tick, per (channel, pitch)
+        sounding = defaultdict(int)
         for t in sorted(events_by_time.keys()):
             evs = events_by_time[t]
+            # the voices of a track are written one after the other: at one tick a
+            # note must be ended before a note of the same pitch and channel is
+            # started (the note off of a note that also starts at this tick, i.e.
+            # a note without duration, stays behind its note on)
+            others, ending, ons, zero_length = [], [], [], []
+            for ev in evs:
+                if ev.type == "note_off":
+                    if sounding[(ev.channel, ev.note)] > 0:
+                        sounding[(ev.channel, ev.note)] -= 1
+                        ending.append(ev)
+                    else:
+                        zero_length.append(ev)
+                elif ev.type == "note_on":
+                    ons.append(ev)
+                else:
+                    others.append(ev)
+            for ev in ons:
+                sounding[(ev.channel, ev.note)] += 1
+            for ev in zero_length:
+                sounding[(ev.channel, ev.note)] -= 1
+            evs = others + ending + ons + zero_length
             delta = t - t_prev
             for ev in evs:
                 tracks[tr].append(ev.copy(time=delta))
